@@ -90,6 +90,14 @@ async def scenario(loop, plan):
         await asyncio.sleep(0.001)
         if len(gw.sent) != 1:
             raise HarnessError(f"pending command was not sent: {plan}")
+        if pend.get("state") == "timed-out":
+            # the command is left unanswered until its caller has timed out; the frame under test arrives afterwards
+            await asyncio.wait([task], timeout=15)
+            await asyncio.sleep(0.5)
+        elif pend.get("state") == "abandoned":
+            await asyncio.sleep(0.2)
+            task.cancel()
+            await asyncio.wait([task], timeout=1)
     try:
         ezsp.frame_received(frame)
     except BaseException as ex:
@@ -159,6 +167,11 @@ def check(plan) -> Result:
     if ex is not None and ex[1] in by_id:
         name, rx = by_id[ex[1]]
         decoded = try_decode(rx, ex[2])
+        if decoded is not None and values.fits(rx, ex[2]) is False:
+            # bellows' own deserializer says it decodes, the wire shape of the schema says the bytes cannot hold it:
+            # not a full frame of this version, whatever the deserializer makes of it
+            decoded = None
+            r.cls("deserializer-accepts-short-payload")
     answers_pending = bool(pend) and ex is not None and ex[0] == pend["seq"]
     expect_cb = decoded is not None and not answers_pending
     cbs = out["cbs"][:len(out["cbs"]) - out["cbs_after"]] if out["cbs_after"] else out["cbs"]
@@ -184,10 +197,14 @@ def check(plan) -> Result:
         elif kind == "TimeoutError":
             if dt < 10 - 1e-6:
                 r.bad("C08:pending-timeout-early", f"{plan}: after {dt}")
-            if answers_pending and decoded is not None and ex[1] == pid:
+            if answers_pending and decoded is not None and ex[1] == pid and not pend.get("state"):
                 r.bad("C08:valid-reply-ignored", f"{plan}")
+        elif kind == "cancelled" and pend.get("state") == "abandoned":
+            pass
         else:
             r.bad(f"C08:pending-ended-with:{kind}", f"{plan}")
+        if pend.get("state"):
+            r.cls("frame-after-caller-" + pend["state"])
     if out["after"] != "ok":
         r.bad("C08:fresh-command-fails-afterwards", f"{plan}: {out['after']}")
     valid_for_pending = bool(pend) and answers_pending and decoded is not None and ex[1] == cls.COMMANDS[pend["name"]][0]
@@ -223,6 +240,9 @@ def plans(draw, versions=None):
         cid, tx, rx = cls.COMMANDS[pname]
         txv, txb = draw(values.schema_strategy(tx)) if isinstance(tx, dict) else ([], b"")
         pend = {"name": pname, "seq": draw(st.sampled_from([0, 1, 127, 255, 200])), "txb": txb.hex()}
+        st_ = draw(st.sampled_from([None, None, None, "timed-out", "abandoned"]))
+        if st_:
+            pend["state"] = st_
     # base frame
     src = draw(st.sampled_from(["same", "other", "other", "invalidCommand", "random"])) if pend else draw(st.sampled_from(["other", "other", "random"]))
     if src == "random":
